@@ -44,6 +44,7 @@ type mSym struct {
 	nonNil bool
 	typ    types.Type
 	rt     types.Type // for the result of reflect.TypeOf: the type described
+	rv     mv         // for the result of reflect.ValueOf: the value described (rt: its dynamic type; rt == nil: the zero Value)
 }
 
 type mStruct []mv
@@ -1235,6 +1236,10 @@ func (m *mach) invoke(fr *mframe, fn mv, args []mv, env []mv, at ssa.Instruction
 			switch f.method.Name() {
 			case "Comparable":
 				return types.Comparable(f.recv.rt)
+			case "Kind":
+				if k, ok := reflectKind(f.recv.rt); ok {
+					return k
+				}
 			case "String":
 				return f.recv.rt.String()
 			}
